@@ -29,6 +29,19 @@ def rx_decoders(ctx):
             fn = [it for it in im["items"] if it["kind"] == "fn" and it["name"] == "try_decode"]
             if fn:
                 out[nm] = (adt, flat_decoder(ctx, ctx.world.body(fn[0]["def"]), adt))
+        elif adt.startswith("codec::") and nm.endswith("Rx") and re.search(r"<\w+>$", im.get("self_ty") or ""):
+            # one decoder generic over the reason enum, shared by several packets (`ReasonListRx<ReasonT>` with
+            # `type SubackRx = ReasonListRx<SubackReason>`): the packets are its instantiations, named after their reason
+            fn = [it for it in im["items"] if it["kind"] == "fn" and it["name"] == "try_decode"]
+            if not fn:
+                continue
+            body = None
+            for c_ in ctx.facts.consts:
+                st_ = c_.get("self_ty") or ""
+                m_ = re.search(re.escape(adt) + r"<.*::(\w+)Reason>$", st_)
+                if c_["name"] == "PACKET_ID" and m_ and (m_.group(1) + "Rx") in RX_DECODERS and (m_.group(1) + "Rx") not in out:
+                    body = body or flat_decoder(ctx, ctx.world.body(fn[0]["def"]), adt)
+                    out[m_.group(1) + "Rx"] = (adt, body)
     return out
 
 
@@ -404,6 +417,11 @@ def mandatory(ctx):
     for badt, (want_build, want_val) in sorted(MAND_TABLE.items()):
         bi = builder_info(ctx, badt)
         nm = badt.split("::")[-1]
+        if bi is None and nm.endswith("RxBuilder"):
+            # the packet is an instantiation of a generic type (`SubackRx = ReasonListRx<SubackReason>`): that type's builder
+            ent_ = rx_decoders(ctx).get(nm[:-len("Builder")])
+            if ent_ is not None and ent_[0] + "Builder" != badt:
+                bi = builder_info(ctx, ent_[0] + "Builder")
         if bi is None:
             lit = _literal_mandatory(ctx, badt, want_build) if (nm.endswith("RxBuilder") and not want_val) else None
             if lit is not None:
@@ -837,6 +855,33 @@ def uprops(ctx):
     out.append(Inst("UPROPS", "append-only", not bad, pushes[0] if pushes else "src/core/collections.rs", "%d functions of UserProperties; calls that reorder / remove / replace elements or reverse an iteration: %s" % (n, bad or "none"),
                     "user properties are exposed in the order they were received"))
     out.append(Inst("UPROPS", "push-appends", len(pushes) >= 1, pushes[0] if pushes else "src/core/collections.rs", "%d Vec::push call(s)" % len(pushes), "push() appends at the end"))
+    # every pair that is handed over is stored (a repeated pair is a repeated property), and the accessors look at every
+    # stored pair (no adaptor that stops early or skips)
+    SKIP = re.compile(r"Iterator::(skip_while|take_while|take|skip|step_by|last|nth|find|find_map|position|dedup\w*|map_while|scan|peekable|fuse)$|slice::<impl \[T\]>::(first|last|get|split_\w+|chunks\w*|windows|binary_search\w*)$")
+    cond_push, skipping = [], []
+    for f in ctx.facts.fns:
+        if "::test" in f["path"] or f["kind"] not in ("fn", "closure"):
+            continue
+        own = strip_generics(f.get("impl_self") or "") == adt or f["path"].startswith("<" + adt + " as ") or (f.get("parent") or "").startswith("<" + adt) or \
+            strip_generics(f["path"]).startswith(adt + "::")
+        if not own:
+            continue
+        b = ctx.world.body(f["path"])
+        for i in sorted(b.reach):
+            t = b.term(i)
+            if t["k"] != "call":
+                continue
+            nm = callee_name(t) or ""
+            if re.search(r"Vec::<[^>]*>::push$|Vec::push$", nm):
+                deps = [d for (d, s_) in b.control_dep_closure(i) if b.term(d)["k"] == "switch" and b.term(d)["op"].get("k") != "const"]
+                if deps:
+                    cond_push.append("%s (decided at %s)" % (b.site(i), sorted({b.site(d) for d in deps})))
+            if SKIP.search(nm) or SKIP.search(strip_generics(nm)):
+                skipping.append("%s at %s" % (short_ty(nm), b.site(i)))
+    out.append(Inst("UPROPS", "push-unconditional", not cond_push, pushes[0] if pushes else "src/core/collections.rs", "conditional appends: %s" % (cond_push or "none"),
+                    "every received pair is kept, duplicates included"))
+    out.append(Inst("UPROPS", "accessors-see-all", not skipping, "src/core/collections.rs", "adaptors in the accessors that stop early or skip elements: %s" % (skipping or "none"),
+                    "get / keys / values / iter yield every matching pair, wherever it stands"))
     return out
 
 
@@ -1547,3 +1592,250 @@ def _ranges(s):
         out.append("0x%02X" % xs[i] if i == j else "0x%02X..=0x%02X" % (xs[i], xs[j]))
         i = j + 1
     return "{" + ", ".join(out) + "}"
+
+
+# ------------------------------------------------------------------------------------ PROPLEN-GUARD
+
+@rule("PROPLEN-GUARD", floor=5)
+def proplen_guard(ctx):
+    """A decoder refuses a packet for its Property Length exactly when the properties would run past what is left of the
+    packet: the test that leads to InvalidPropertyLength is `property_len > remaining` (the two values themselves: no
+    constant offset that assumes a one-byte length field, no equality that also refuses a packet with a payload)."""
+    out = []
+    for nm, (adt, body) in sorted(rx_decoders(ctx).items()):
+        n = 0
+        for i in sorted(body.reach):
+            for st in body.blocks[i]["stmts"]:
+                if st["k"] != "assign" or st["rv"]["k"] != "agg" or not (st["rv"].get("adt") or "").endswith("::InvalidPropertyLength"):
+                    continue
+                n += 1
+                verdict, fact = False, "no comparison of the property length dominates the refusal"
+                for (d, s_) in reversed(dominating_edges(body, i)):
+                    c = Cond(body, d)
+                    if c.kind != "cmp" or c.holds_on(s_) is None:
+                        continue
+                    def is_plen(x):
+                        return x is not None and x.get("k") != "const" and any(a[0] == "call" and a[1].endswith("Decoder::try_decode") for a in body.atoms(x)) and \
+                            any(a[0] == "targ" and str(a[1]).endswith("VarSizeInt") for a in body.atoms(x))
+                    nn = c.cmp_norm(is_plen)
+                    if not nn:
+                        continue
+                    op = nn[0] if c.holds_on(s_) else {"Lt": "Ge", "Ge": "Lt", "Gt": "Le", "Le": "Gt", "Eq": "Ne", "Ne": "Eq"}[nn[0]]
+                    other = nn[1]
+                    oat = body.atoms(other) if other.get("k") != "const" else set()
+                    is_rem = any(a[0] == "call" and re.search(r"Decoder::remaining$|Bytes::len$|Buf::remaining$", a[1]) for a in oat)
+                    arith = _has_arith(body, other) or _has_arith(body, c.a if other is c.b else c.b)
+                    verdict = op == "Gt" and is_rem and not arith
+                    fact = "refused on the edge property_len %s %s%s" % (op, "remaining()" if is_rem else "something that is not the number of bytes left", " with arithmetic on an operand" if arith else "")
+                    break
+                out.append(Inst("PROPLEN-GUARD", "%s#%d" % (nm, n), verdict, "%s:%d" % (body.fn["file"], st["line"]), "%s: %s" % (nm, fact), "property_len > remaining()"))
+        if n == 0:
+            out.append(Inst("PROPLEN-GUARD", "%s:none" % nm, True, body.site(0), "NOT DECIDED: %s builds no InvalidPropertyLength error in its own body" % nm, "", {"undecided": True}))
+    return out
+
+
+def _has_arith(body, x, depth=0):
+    """The operand is computed with +, -, *, shifts from other values (not a plain read / call result)."""
+    if x is None or x.get("k") == "const" or depth > 6:
+        return False
+    o = body.origin(x, through_calls=False)
+    if o[0] == "rv":
+        rv = o[2]["rv"]
+        if rv["k"] == "bin" and rv["op"] in ("Add", "Sub", "Mul", "Div", "Rem", "Shl", "Shr"):
+            return True
+        if rv["k"] == "cast":
+            return _has_arith(body, rv["op"], depth + 1)
+    if o[0] == "call":
+        nm = callee_name(o[2]) or ""
+        if re.search(r"(VarSizeInt::value|From::from|Into::into|Deref::deref)$", nm) and o[2]["ops"]:
+            return _has_arith(body, o[2]["ops"][0], depth + 1)
+    return False
+
+
+# ------------------------------------------------------------------------------------ CHUNK
+
+CUT_CALLS = re.compile(r"(bytes::Bytes::split_to|bytes::Buf::copy_to_bytes|bytes::Bytes::slice|bytes::Bytes::split_off|bytes::Bytes::copy_from_slice)$")
+
+
+@rule("CHUNK", floor=4)
+def chunk(ctx):
+    """The length-prefixed primitives (UTF-8 string, binary data, string pair) keep exactly the bytes the prefix delimits:
+    every component of the decoded value is the result of one cut of the input by the decoded length, moved into the
+    value as it is (not trimmed, not normalised, not re-built from a lossy conversion -- `Decoder::try_decode` advances by
+    the byte_len() of what was decoded, so a value that differs from the bytes it came from derails the decoder), and for
+    the string types that very cut is what `str::from_utf8` validates, with the failure propagated."""
+    out = []
+    decs = {}
+    for im in ctx.facts.impls:
+        tr = im.get("trait")
+        if tr and tr["path"] == "core::utils::TryDecode" and (im.get("self_adt") or "") in ("core::base_types::UTF8String", "core::base_types::Binary", "core::base_types::UTF8StringPair"):
+            fn = [it for it in im["items"] if it["kind"] == "fn" and it["name"] == "try_decode"]
+            if fn:
+                decs[im["self_adt"].split("::")[-1]] = (im["self_adt"], ctx.flat(ctx.world.body(fn[0]["def"])))
+    for nm, (adt, body) in sorted(decs.items()):
+        lits = [(i, st) for i in sorted(body.reach) for st in body.blocks[i]["stmts"] if st["k"] == "assign" and st["rv"]["k"] == "agg" and st["rv"].get("adt") == adt]
+        if not lits:
+            out.append(Inst("CHUNK", "%s:stored" % nm, True, body.site(0), "NOT DECIDED: %s is not built by a literal in its decoder" % nm, "", {"undecided": True}))
+            continue
+        validations = [(i, t) for i, t in body.calls(r"(core::str::from_utf8|std::str::from_utf8|core::str::converts::from_utf8|str::from_utf8)$")]
+        for li, st in lits:
+            for k, o in enumerate(st["rv"]["ops"]):
+                org = body.origin(o, through_calls=False) if o.get("k") != "const" else ("const",)
+                if org[0] != "call":
+                    # behind a helper's `Ok(chunk)` and a `?`: the call(s) the value can come from
+                    srcs = _value_sources(body, o)
+                    if srcs and len(srcs) == 1 and next(iter(srcs))[0] == "call":
+                        bb_ = next(iter(srcs))[1]
+                        org = ("call", bb_, body.term(bb_))
+                cut = org[0] == "call" and bool(CUT_CALLS.search(callee_name(org[2]) or ""))
+                by_len = False
+                if cut and len(org[2]["ops"]) >= 2:
+                    lat = body.atoms(org[2]["ops"][1])
+                    by_len = any(a[0] in ("call", "closure", "targ") and "u16" in str(a[1]) for a in lat) or any(a[0] == "call" and re.search(r"(Buf::get_u16|u16 as core::utils::TryDecode>::try_decode|TryDecode for u16>::try_decode|u16::from_be_bytes|Decoder::try_decode)$", a[1]) for a in lat)
+                ok = cut and by_len and (callee_name(org[2]) or "").endswith(("split_to", "copy_to_bytes"))
+                out.append(Inst("CHUNK", "%s:%d:stored-is-the-cut" % (nm, k), ok, body.site(li),
+                                "component %d of %s is %s" % (k, nm, ("the %s(len) of the input, len read from the prefix" % (callee_name(org[2]) or "").split("::")[-1]) if ok else
+                                                             ("produced by %s" % ((callee_name(org[2]) or "?").split("::")[-1] if org[0] == "call" else org[0]))),
+                                "the decoded value is the delimited bytes themselves"))
+                if nm != "Binary":
+                    val_ok = False
+                    if cut:
+                        for vi, vt in validations:
+                            vo = vt["ops"][0] if vt["ops"] else None
+                            if vo is None or vo.get("k") == "const":
+                                continue
+                            # the validated slice derives from the same cut
+                            vs_ = _value_sources(body, vo)
+                            same = (vs_ == {("call", org[1])}) or (any(a[0] == "call" and a[1] == (callee_resolved(org[2]) or callee_name(org[2])) for a in body.atoms(vo)) and
+                                                                   _same_cut(body, vo, org[1]))
+                            if same and body.dominates(vi, li):
+                                val_ok = True
+                    out.append(Inst("CHUNK", "%s:%d:validated" % (nm, k), val_ok, body.site(li),
+                                    "component %d of %s %s" % (k, nm, "is validated as UTF-8 before the value is built" if val_ok else "is NOT the operand of a str::from_utf8 check that dominates the construction"),
+                                    "ill-formed UTF-8 is refused, for every string component"))
+    if not decs:
+        raise AnchorLost("TryDecode impls of UTF8String / Binary / UTF8StringPair")
+    return out
+
+
+def _value_sources(body, op, depth=0, seen=None):
+    """The definitions a value can come from, following moves, references and the payloads of enum literals (`Ok(x)?`):
+    a set of ('call', bb) / ('other', text), or None when the trace is lost."""
+    seen = seen if seen is not None else set()
+    if op is None or depth > 30:
+        return None
+    if op.get("k") == "const":
+        return {("other", "const")}
+    pl = op["pl"] if "pl" in op else op
+    key = (pl["l"], repr(pl["p"]))
+    if key in seen:
+        return set()
+    seen.add(key)
+    proj = [p for p in pl["p"] if p != "deref"]
+    if len(proj) >= 2 and isinstance(proj[0], dict) and "dc" in proj[0] and isinstance(proj[1], dict) and "f" in proj[1]:
+        lit = body._variant_literal_ops(pl["l"], proj)
+        if lit is not None and lit[0]:
+            out = set()
+            for o in lit[0]:
+                if o.get("k") == "const":
+                    out.add(("other", "const"))
+                    continue
+                r = _value_sources(body, {"k": "copy", "pl": {"l": o["pl"]["l"], "p": list(o["pl"]["p"]) + list(lit[1])}}, depth + 1, seen)
+                if r is None:
+                    return None
+                out |= r
+            return out
+    if proj:
+        return None
+    ds = body.whole_defs(pl["l"])
+    if not ds:
+        return None
+    out = set()
+    for d in ds:
+        if d[0] == "call":
+            if re.search(r"(Deref::deref|AsRef::as_ref|Borrow::borrow|Bytes::as_ref|Vec::<[^>]*>::as_slice|Buf::chunk)$", callee_name(d[2]) or "") and d[2]["ops"]:
+                r = _value_sources(body, d[2]["ops"][0], depth + 1, seen)       # a view of the same bytes
+                if r is None:
+                    return None
+                out |= r
+            else:
+                out.add(("call", d[1]))
+        elif d[0] == "stmt":
+            rv = d[3]["rv"]
+            if rv["k"] in ("use", "cast"):
+                r = _value_sources(body, rv["op"], depth + 1, seen)
+            elif rv["k"] == "ref":
+                r = _value_sources(body, {"k": "copy", "pl": rv["pl"]}, depth + 1, seen)
+            else:
+                r = {("other", rv["k"])}
+            if r is None:
+                return None
+            out |= r
+        else:
+            return None
+    return out
+
+
+def _same_cut(body, op, cut_bb):
+    """The operand (a reference to / deref of the chunk) derives from the call in block cut_bb."""
+    seen = set()
+    work = [op]
+    for _ in range(40):
+        if not work:
+            break
+        x = work.pop()
+        if x is None or x.get("k") == "const":
+            continue
+        l = x["pl"]["l"]
+        if l in seen:
+            continue
+        seen.add(l)
+        for d in body.whole_defs(l):
+            if d[0] == "call":
+                if d[1] == cut_bb:
+                    return True
+                work.extend(o for o in d[2]["ops"][:1])
+            elif d[0] == "stmt":
+                rv = d[3]["rv"]
+                if rv["k"] in ("use", "cast"):
+                    work.append(rv["op"])
+                elif rv["k"] == "ref":
+                    work.append({"k": "copy", "pl": rv["pl"]})
+    return False
+
+
+# ------------------------------------------------------------------------------------ DECODE-ERR-CAUSE
+
+@rule("DECODE-ERR-CAUSE", floor=5)
+def decode_err_cause(ctx):
+    """What makes a decoder of an inbound packet refuse the packet by itself (an error it builds in its own body, as
+    opposed to the failure of an item decode it propagates or of the builder's final validation) is the framing -- the
+    fixed header, the lengths, a property that is not allowed -- never the *content* of a field it has just decoded or the
+    state of the builder half way through: a topic name may be empty (the alias stands for it), and which properties are
+    present is only known after the property loop."""
+    out = []
+    for nm, (adt, body) in sorted(rx_decoders(ctx).items()):
+        bad = []
+        n = 0
+        for i in sorted(body.reach):
+            for st in body.blocks[i]["stmts"]:
+                if st["k"] != "assign" or st["rv"]["k"] != "agg" or not re.match(r"core::error::\w+$", st["rv"].get("adt") or ""):
+                    continue
+                a_ = ctx.facts.adt(st["rv"]["adt"])
+                if a_ is None or a_["kind"] != "struct":
+                    continue
+                n += 1
+                for (d, s_) in body.control_dep_closure(i):
+                    t = body.term(d)
+                    if t["k"] != "switch" or t["op"].get("k") == "const":
+                        continue
+                    si = body.switch_info(d)
+                    ats = body.atoms({"k": "copy", "pl": si["place"]}) if si and si["kind"] == "discr" else body.atoms(t["op"])
+                    content = sorted({"%s.%s" % (short_ty(a[1]), a[2]) for a in ats if a[0] == "field" and (str(a[1]).endswith("RxBuilder") or re.search(r"base_types::(UTF8String|Binary|UTF8StringPair)$", str(a[1])))})
+                    calls = sorted({a[1].split("::")[-1] for a in ats if a[0] == "call" and re.search(r"(str|Bytes|UTF8String|Binary|Vec<[^>]*>|Vec)::(is_empty|len|starts_with|ends_with|contains|eq|ne)$", strip_generics(a[1]))
+                                    and not re.search(r"Decoder::|bytes::Buf::remaining", a[1])})
+                    if content:
+                        bad.append("%s at line %d hangs on %s%s (tested at %s)" % (st["rv"]["adt"].split("::")[-1], st["line"], content, " via %s" % calls if calls else "", body.site(d)))
+        out.append(Inst("DECODE-ERR-CAUSE", nm, not bad, body.site(0), "%s: %d error(s) built in the decoder's own body; depending on decoded content / builder state: %s" % (nm, n, bad[:3] or "none"),
+                        "a decoder refuses for framing reasons only; content is judged once, by the builder's validation, after everything was read"))
+    return out
